@@ -432,7 +432,8 @@ def make_term(
     if coefficient == 1:
         return PowerExpression(varExp, expConstExp)
 
-    return PowerExpression(multExp, expConstExp)
+    # The exponent applies to the variable only: c * v^e, not (c * v)^e
+    return MultiplyExpression(constExp, PowerExpression(varExp, expConstExp))
 
 
 class TermResult:
